@@ -10,14 +10,13 @@ import (
 	"context"
 	"errors"
 	"fmt"
-	"sort"
-	"strings"
 	"time"
 
 	"go.flow.arcalot.io/pluginsdk/mcrt"
 	"go.flow.arcalot.io/pluginsdk/schema"
 	"verif/engine/lib"
 	"verif/engine/mc"
+	"verif/harness/stepkit"
 	"verif/harness/ukit"
 )
 
@@ -236,142 +235,18 @@ func partU(tier string, rep *lib.Report) (int, map[string]any) {
 	return evals, map[string]any{"part_U_calls": evals, "part_U_valid_inputs_x_modes": accepted}
 }
 
-// ---- part S ------------------------------------------------------------------------------------------
+// ---- part S: see verif/harness/stepkit ----------------------------------------------------------------
 
-type sObs struct {
-	inits     int
-	stepData  map[string]any
-	sigData   map[string][]any
-	errs      []string
-	stepCalls map[string]int
-}
-
-var cur *sObs
-
-type sScen struct {
-	Name    string
-	Threads []string // "step:r1", "signal:r1", ...
-}
-
-func sScens(tier string) []sScen {
-	out := []sScen{
-		{"step r1 | signal r1", []string{"step:r1", "signal:r1"}},
-		{"signal r1 | signal r1", []string{"signal:r1", "signal:r1"}},
-		{"step r1 | signal r1 | signal r2 | step r2", []string{"step:r1", "signal:r1", "signal:r2", "step:r2"}},
-		{"step r1 | step r2 | signal r1", []string{"step:r1", "step:r2", "signal:r1"}},
-	}
-	if tier == "thorough" {
-		out = append(out, sScen{"step r1 | signal r1 | signal r1 | signal r2 | step r2", []string{"step:r1", "signal:r1", "signal:r1", "signal:r2", "step:r2"}})
-	}
-	return out
-}
-
-var sMap map[string]sScen
-
-func sBody(sc sScen) func() {
-	return func() {
-		o := &sObs{stepData: map[string]any{}, sigData: map[string][]any{}, stepCalls: map[string]int{}}
-		cur = o
-		inScope := ukit.BuildScope(ukit.WrapScope(ukit.MapObjA("A")))
-		sigScope := schema.NewScopeSchema(schema.NewObjectSchema("SigIn", map[string]*schema.PropertySchema{
-			"run": schema.NewPropertySchema(schema.NewStringSchema(nil, nil, nil), nil, true, nil, nil, nil, nil, nil),
-		}))
-		sig := schema.NewCallableSignal[*stepData, map[string]any]("sig", sigScope, nil, func(_ context.Context, d *stepData, v map[string]any) {
-			run := v["run"].(string)
-			o.sigData[run] = append(o.sigData[run], d)
-		})
-		cs := schema.NewCallableSchema(schema.NewCallableStepWithSignals[*stepData, map[string]any]("s", inScope,
-			map[string]*schema.StepOutputSchema{"success": schema.NewStepOutputSchema(outScope(), nil, false)},
-			map[string]schema.CallableSignal{"sig": sig}, nil, nil,
-			func() *stepData { o.inits++; return &stepData{id: o.inits} },
-			func(_ context.Context, d *stepData, v map[string]any) (string, any) {
-				run := v["x"].(string)
-				o.stepCalls[run]++
-				o.stepData[run] = d
-				return "success", map[string]any{"message": "done " + run}
-			}))
-		var wg mcrt.WaitGroup
-		for i, th := range sc.Threads {
-			parts := strings.SplitN(th, ":", 2)
-			kind, run := parts[0], parts[1]
-			wg.Add(1)
-			mcrt.GoNamed(fmt.Sprintf("t%d-%s", i, th), func() {
-				defer wg.Done()
-				if kind == "step" {
-					id, data, err := cs.CallStep(context.Background(), run, "s", map[string]any{"x": run})
-					if err != nil || id != "success" || data.(map[string]any)["message"] != "done "+run {
-						o.errs = append(o.errs, fmt.Sprintf("CallStep(%s) -> (%q, %v, %v)", run, id, data, err))
-					}
-				} else {
-					if err := cs.CallSignal(context.Background(), run, "s", "sig", map[string]any{"run": run}); err != nil {
-						o.errs = append(o.errs, fmt.Sprintf("CallSignal(%s) -> %v", run, err))
-					}
-				}
-			})
-		}
-		wg.Wait()
-	}
-}
-
-func sJudge(sc sScen, r *mcrt.Result) (string, []mc.Finding) {
-	o := cur
-	var fs []mc.Finding
-	add := func(sig, detail string) {
-		fs = append(fs, mc.Finding{Signature: sig, Detail: "threads: " + sc.Name + "\n" + detail})
-	}
-	switch r.Status {
-	case mcrt.StPanic:
-		add("panic in "+lib.PanicSite(r.PanicStack)+": "+lib.PanicClass(r.PanicValue), r.PanicValue+"\n"+r.PanicStack)
-	case mcrt.StBlocked:
-		add("deadlock", fmt.Sprint(r.Blocked))
-	}
-	for _, rc := range r.Races {
-		a, b := rc.First, rc.Then
-		if a > b {
-			a, b = b, a
-		}
-		add("data race: "+a+" <-> "+b, rc.String())
-	}
-	if r.Status != mcrt.StComplete || o == nil {
-		return r.Status.String(), fs
-	}
-	for _, e := range o.errs {
-		add("call failed under concurrency", e)
-	}
-	runs := map[string]bool{}
-	for _, th := range sc.Threads {
-		runs[strings.SplitN(th, ":", 2)[1]] = true
-	}
-	if o.inits != len(runs) {
-		add("step data initializer did not run exactly once per run id", fmt.Sprintf("%d initializer runs for %d run ids", o.inits, len(runs)))
-	}
-	var order []string
-	for run := range runs {
-		want := o.stepData[run]
-		for _, d := range o.sigData[run] {
-			if want == nil {
-				want = d
-			}
-			if d != want {
-				add("signal handler saw other step data than its run's", fmt.Sprintf("run %s: step data %v, signal data %v", run, want, d))
-			}
-		}
-		if sd, ok := o.stepData[run].(*stepData); ok {
-			order = append(order, fmt.Sprintf("%s=#%d", run, sd.id))
-		}
-	}
-	sort.Strings(order)
-	return "complete " + strings.Join(order, ","), fs
-}
+var sMap map[string]stepkit.Scen
 
 func main() {
 	mc.Main(mc.Harness{
 		Property: "C11",
 		Level:    "model_checking",
 		Scenarios: func(tier string) []mc.Scenario {
-			sMap = map[string]sScen{}
+			sMap = map[string]stepkit.Scen{}
 			var out []mc.Scenario
-			for _, s := range sScens(tier) {
+			for _, s := range stepkit.Scens(tier) {
 				sMap[s.Name] = s
 				levels := []mc.Bounds{{Preempt: 0, Delay: 0}, {Preempt: 1, Delay: 1}, {Preempt: 2, Delay: 2}, {Preempt: 3, Delay: 3}}
 				if tier == "thorough" {
@@ -381,8 +256,8 @@ func main() {
 			}
 			return out
 		},
-		Body:  func(sc mc.Scenario) func() { return sBody(sMap[sc.Name]) },
-		Judge: func(sc mc.Scenario, r *mcrt.Result) (string, []mc.Finding) { return sJudge(sMap[sc.Name], r) },
+		Body:  func(sc mc.Scenario) func() { return stepkit.Body(sMap[sc.Name]) },
+		Judge: func(sc mc.Scenario, r *mcrt.Result) (string, []mc.Finding) { return stepkit.Judge(sMap[sc.Name], r) },
 		Pre:   partU,
 		Budget: func(tier string) time.Duration {
 			if tier == "thorough" {
